@@ -379,6 +379,7 @@ class Explorer:
         self._last_model = None
         self._consts = {}
         self._vcount = {}
+        self.stop_after_violations = 25
         self.levels = 0       # solver push levels == decisions of the current path asserted so far
         self.kept_levels = 0  # levels retained from the previous path (shared prefix)
         self.ops = 0          # solver.add operations outside decisions, in path order
@@ -666,18 +667,18 @@ class Explorer:
         self._model = None
         self._reached = False
         self.stats["paths"] += 1
-        use_alarm = self.path_seconds and hasattr(signal, "SIGALRM")
-        if use_alarm:
-            old = signal.signal(signal.SIGALRM, self._alarm)
-            signal.setitimer(signal.ITIMER_REAL, self.path_seconds)
+        use_alarm = self.path_seconds and hasattr(signal, "SIGPROF")
+        if use_alarm:  # CPU-time budget of this process (robust against a loaded machine)
+            old = signal.signal(signal.SIGPROF, self._alarm)
+            signal.setitimer(signal.ITIMER_PROF, self.path_seconds)
         status = "completed"
         try:
             try:
                 fn(self)
             finally:
                 if use_alarm:
-                    signal.setitimer(signal.ITIMER_REAL, 0)
-                    signal.signal(signal.SIGALRM, old)
+                    signal.setitimer(signal.ITIMER_PROF, 0)
+                    signal.signal(signal.SIGPROF, old)
             self.stats["completed"] += 1
             if self._reached:
                 self.stats["reached"] += 1
@@ -727,6 +728,12 @@ class Explorer:
         floor = len(self.trail)
         while True:
             self.run_path(fn)
+            if self.stats.get("violations", 0) >= self.stop_after_violations:
+                # a violation is established; do not spend the budget on the rest of this shard
+                if self._backtrack(floor):
+                    self.inconclusive.append("shard abandoned after %d violations" % self.stats["violations"])
+                    return False
+                return True
             if self.max_paths and self.stats["paths"] >= self.max_paths:
                 if self._backtrack(floor):
                     self.inconclusive.append("max_paths %d reached" % self.max_paths)
